@@ -142,68 +142,147 @@ class Crc5Exhaustive(Sub):
         return Result(ok=True, nontrivial=True, labels=("block",))
 
 
+def _crc5_field(v):
+    """check field (as the 5 bits above the 11 token bits) of the bit-serial USB2 token CRC5"""
+    return rev(R.crc_bits(lsb_bits(v, 11), POLY5, 5) ^ 0x1F, 5)
+
+
+def _token_harness():
+    from luna.gateware.interface.utmi import UTMIInterface
+    from luna.gateware.usb.usb2.packet import USBTokenDetector
+    utmi = UTMIInterface()
+    dut = USBTokenDetector(utmi=utmi, filter_by_address=False, domain_clock=60e6)
+    i = dut.interface
+    return CycleHarness(dut, ins=dict(rx_active=utmi.rx_active, rx_valid=utmi.rx_valid, rx_data=utmi.rx_data),
+                        outs=dict(new_token=i.new_token, new_frame=i.new_frame, pid=i.pid, address=i.address,
+                                  endpoint=i.endpoint, frame=i.frame), domain="usb")
+
+
+def _judge_tokens(h, toks):
+    """toks: list of (pid, 11-bit value, 5-bit check field[, lead, idle]) sent one after the other to ONE detector
+    instance without any reset in between.  Each must be reported (new_token / new_frame for SOF, with its own
+    fields) iff its check field is the bit-serial CRC5 of its value.  -> fail(...) or None."""
+    script = []
+    spans = []
+    for k, tk in enumerate(toks):
+        pid, v, c = tk[:3]
+        lead, idle = (tk[3], tk[4]) if len(tk) > 3 else (1, 3)
+        w = v | (c << 11)
+        start = len(script)
+        script += [dict(rx_active=1, rx_valid=0, rx_data=0)] * lead
+        for b in (pid | ((~pid & 0xF) << 4), w & 0xFF, w >> 8):
+            script.append(dict(rx_active=1, rx_valid=1, rx_data=b))
+        script += [dict(rx_active=0, rx_valid=0, rx_data=0)] * idle
+        spans.append((start, len(script), pid, v, c, k))
+    trace = h.run_script(script, tail=2)
+    prev = None
+    for start, end, pid, v, c, k in spans:
+        # the strobe is registered: it appears in the 2nd cycle after rx_active fell
+        win = trace[start + 1:end + 1]
+        tok = [o for o in win if o.new_token]
+        frm = [o for o in win if o.new_frame]
+        good = _crc5_field(v)
+        ctx = "" if prev is None else f" (token {k} of the sequence; previous accepted token value {prev:#05x})"
+        if c == good:
+            if pid == 0x5:
+                if len(frm) != 1 or tok or frm[0].frame != v:
+                    return fail(f"SOF value {v:#05x} with correct CRC5 {c:#04x}: new_frame x{len(frm)} "
+                                f"new_token x{len(tok)} frame={[o.frame for o in frm]}{ctx}",
+                                signature="good-crc5-token-not-reported")
+            else:
+                if len(tok) != 1 or frm or tok[0].pid != pid or tok[0].address != (v & 0x7F) or \
+                        tok[0].endpoint != (v >> 7):
+                    return fail(f"token pid {pid:#x} value {v:#05x} with correct CRC5 {c:#04x}: new_token "
+                                f"x{len(tok)} new_frame x{len(frm)} fields={[(o.pid, o.address, o.endpoint) for o in tok]}{ctx}",
+                                signature="good-crc5-token-not-reported")
+            prev = v
+        elif tok or frm:
+            return fail(f"token pid {pid:#x} value {v:#05x} with WRONG CRC5 {c:#04x} (correct {good:#04x}) "
+                        f"was reported{ctx}", signature="bad-crc5-token-accepted")
+    return None
+
+
 class TokenAccept(Sub):
     name = "token-accept"
     budget = {"quick": 0, "thorough": 0}
     exhaustive = True
     rule = ("USBTokenDetector(filter_by_address=False): for every 11-bit token value all 32 check fields are sent as "
-            "3-byte tokens (PID cycles through OUT/IN/SETUP/PING/SOF); a strobe (new_token/new_frame) with the right "
-            "fields must appear iff the field equals the bit-serial CRC5; every case is non-trivial (1 good + 31 bad)")
+            "3-byte tokens (PID cycles through OUT/IN/SETUP/PING/SOF) to one detector without reset; a strobe "
+            "(new_token/new_frame) with the right fields must appear iff the field equals the bit-serial CRC5; second "
+            "pass over all 2^11 x 32 words in which the most recently accepted token before every word is a neighbour "
+            "whose bits [10:8] are the complement of the word's (low byte scrambled; sent first, the correct check field "
+            "last), so that any state kept from the last accepted token is exposed; the neighbour is judged too; every "
+            "case is non-trivial (>= 1 good + 31 bad)")
 
     PIDS = (0x1, 0x9, 0xD, 0x4, 0x5)
 
     def setup(self):
-        from luna.gateware.interface.utmi import UTMIInterface
-        from luna.gateware.usb.usb2.packet import USBTokenDetector
-        utmi = UTMIInterface()
-        dut = USBTokenDetector(utmi=utmi, filter_by_address=False, domain_clock=60e6)
-        i = dut.interface
-        self.h = CycleHarness(dut, ins=dict(rx_active=utmi.rx_active, rx_valid=utmi.rx_valid, rx_data=utmi.rx_data),
-                              outs=dict(new_token=i.new_token, new_frame=i.new_frame, pid=i.pid, address=i.address,
-                                        endpoint=i.endpoint, frame=i.frame), domain="usb")
+        self.h = _token_harness()
+
+    @staticmethod
+    def neighbour(v):
+        return (((v >> 8) ^ 7) << 8) | ((v * 0x5B + 0x2D) & 0xFF)
 
     def enumerate(self, tier):
-        return [dict(v=v) for v in range(2048)]
+        return [dict(v=v) for v in range(2048)] + [dict(v=v, u=self.neighbour(v)) for v in range(2048)]
 
     def strategy(self):
         return st.fixed_dictionaries(dict(v=st.integers(0, 2047)))
 
     def run(self, case):
         v = case["v"]
-        good = rev(R.crc_bits(lsb_bits(v, 11), POLY5, 5) ^ 0x1F, 5)
-        script = []
-        spans = []
-        for c in range(32):
-            pid = self.PIDS[(v + c) % 5]
-            w = v | (c << 11)
-            start = len(script)
-            script.append(dict(rx_active=1, rx_valid=0, rx_data=0))
-            for b in (pid | ((~pid & 0xF) << 4), w & 0xFF, w >> 8):
-                script.append(dict(rx_active=1, rx_valid=1, rx_data=b))
-            script += [dict(rx_active=0, rx_valid=0, rx_data=0)] * 3
-            spans.append((start, len(script), pid, c))
-        trace = self.h.run_script(script, tail=2)
-        for start, end, pid, c in spans:
-            # the strobe is registered: it appears in the 2nd cycle after rx_active fell
-            win = trace[start + 1:end + 1]
-            tok = [o for o in win if o.new_token]
-            frm = [o for o in win if o.new_frame]
-            if c == good:
-                if pid == 0x5:
-                    if len(frm) != 1 or tok or frm[0].frame != v:
-                        return fail(f"SOF value {v:#05x} with correct CRC5 {c:#04x}: new_frame x{len(frm)} "
-                                    f"new_token x{len(tok)} frame={[o.frame for o in frm]}",
-                                    signature="good-crc5-token-not-reported")
-                else:
-                    if len(tok) != 1 or frm or tok[0].pid != pid or tok[0].address != (v & 0x7F) or \
-                            tok[0].endpoint != (v >> 7):
-                        return fail(f"token pid {pid:#x} value {v:#05x} with correct CRC5 {c:#04x}: new_token "
-                                    f"x{len(tok)} new_frame x{len(frm)} fields={[(o.pid, o.address, o.endpoint) for o in tok]}",
-                                    signature="good-crc5-token-not-reported")
-            elif tok or frm:
-                return fail(f"token pid {pid:#x} value {v:#05x} with WRONG CRC5 {c:#04x} (correct {good:#04x}) "
-                            f"was reported", signature="bad-crc5-token-accepted")
-        return Result(ok=True, nontrivial=True, labels=("value",))
+        u = case.get("u")
+        if u is None:
+            toks = [(self.PIDS[(v + c) % 5], v, c) for c in range(32)]
+        else:
+            # neighbour first, then the 31 wrong check fields, the correct one last: the most recently accepted token
+            # is u for every one of the 32 words
+            good = _crc5_field(v)
+            order = [c for c in range(32) if c != good] + [good]
+            toks = [(self.PIDS[(u + 2) % 5], u, _crc5_field(u))] + [(self.PIDS[(v + c) % 5], v, c) for c in order]
+        bad = _judge_tokens(self.h, toks)
+        return bad or Result(ok=True, nontrivial=True, labels=("value" if u is None else "value-after-neighbour",))
+
+
+class TokenSequence(Sub):
+    name = "token-sequence"
+    budget = {"quick": 1200, "thorough": 30000}
+    rule = ("random sequences of 2..60 (average 32) three-byte tokens (OUT/IN/SETUP/PING/SOF; values uniform, or differing from the "
+            "previous value only in bits [10:8] / only in the low byte / by one bit) to one USBTokenDetector without "
+            "reset, rx_active lead 1..2, 3..8 idle cycles between; check field correct (3 in 5), one bit off, or "
+            "random; every token must be reported with its own fields iff its check field is the bit-serial CRC5. "
+            "non-trivial = two consecutive accepted tokens whose bits [10:8] differ and >= 1 rejected token")
+
+    def setup(self):
+        self.h = _token_harness()
+
+    def strategy(self):
+        tok = st.tuples(
+            st.sampled_from(TokenAccept.PIDS),
+            st.one_of(st.tuples(st.just("abs"), st.integers(0, 2047)),
+                      st.tuples(st.just("high"), st.integers(1, 7)),            # xor into bits [10:8] of the previous value
+                      st.tuples(st.just("low"), st.integers(1, 255)),           # xor into the low byte
+                      st.tuples(st.just("bit"), st.integers(0, 10))),
+            weighted([("good", 3), ("flip", 1), ("rand", 1)]), st.integers(0, 31),
+            st.integers(1, 2), st.integers(3, 8))
+        return st.fixed_dictionaries(dict(toks=long_lists(tok, min_size=2, max_size=60, average=32)))
+
+    def run(self, case):
+        toks = []
+        v = 0
+        for pid, (how, arg), ck, carg, lead, idle in case["toks"]:
+            v = arg if how == "abs" else v ^ (arg << 8) if how == "high" else v ^ arg if how == "low" else v ^ (1 << arg)
+            good = _crc5_field(v)
+            c = good if ck == "good" else good ^ (1 << (carg % 5)) if ck == "flip" else carg
+            toks.append((pid, v, c, lead, idle))
+        bad = _judge_tokens(self.h, toks)
+        if bad:
+            return bad
+        acc = [t[1] >> 8 for t in toks if t[2] == _crc5_field(t[1])]
+        varied = any(a != b for a, b in zip(acc, acc[1:]))
+        shrinking = any(a & ~b for a, b in zip(acc, acc[1:]))
+        return Result(ok=True, nontrivial=varied and len(acc) < len(toks),
+                      labels=tuple(["high-bits-vary"] * varied + ["high-bits-cleared-between-accepted"] * shrinking))
 
 
 # ------------------------------------------------------------------------------------------------ steps
@@ -560,7 +639,7 @@ class WalkUsb3Crc32(Sub):
         return Result(ok=True, nontrivial=nt, labels=tuple(sorted(labels)))
 
 
-SUBS = [Crc5Exhaustive(), TokenAccept(), StepBasis(), StepRandom(), Usb2Crc16Exhaustive(), Usb2Crc16Stripe(),
+SUBS = [Crc5Exhaustive(), TokenAccept(), TokenSequence(), StepBasis(), StepRandom(), Usb2Crc16Exhaustive(), Usb2Crc16Stripe(),
         WalkUsb2Crc16(),
         WalkUsb3Crc16(), WalkUsb3Crc32()]
 
